@@ -251,13 +251,13 @@ func genPocket(r *hx.Rng) desc {
 	}
 }
 
-// genHuge: 258-300 points on a 1000 x 1000 grid — more than 256 vertices, so that any 8-bit packing of a
+// genHuge: 258-272 points on a 1000 x 1000 grid — more than 256 vertices, so that any 8-bit packing of a
 // vertex index, a 256-entry table or a uint8 counter in the implementation is exercised.  Admitted by the
 // faithful-run filter; judged by the certified checker only (no model run, no brute-force Delaunay, hence
 // no coverage verdict: classify is O(n^4)).
 func genHuge(r *hx.Rng) desc {
 	for {
-		n := r.Range(258, 300)
+		n := r.Range(258, 272)
 		ps := fill(r, n, func(r *hx.Rng) P { return P{int64(r.Intn(1001)), int64(r.Intn(1001))} }, nil)
 		if len(ps) < 257 {
 			continue
